@@ -112,11 +112,21 @@ def make_grammar(ctx, names, tdefs, custom, keyword):
     return "\n".join(lines)
 
 
-def custom_recognizer(tdef, ignore_case):
+def custom_recognizer(tdef, ignore_case, style=0):
+    """style 0: (input, pos) -> value; 1: returns (value, additional data);
+    2: takes the parsing context as first argument."""
+    if style == 2:
+
+        def rec3(context, inp, pos):
+            e = tdef.match(inp, pos, ignore_case)
+            return inp[pos:e] if e is not None else None
+
+        return rec3
+
     def rec(inp, pos):
         e = tdef.match(inp, pos, ignore_case)
         if e is not None:
-            return inp[pos:e]
+            return (inp[pos:e], "extra", pos) if style == 1 else inp[pos:e]
         return None
 
     return rec
@@ -248,7 +258,7 @@ def run(ctx):
 
 
 def build(text, mode, tdefs, custom, ignore_case, passthrough):
-    recs = {n: custom_recognizer(tdefs[n], ignore_case) for n in custom} or None
+    recs = {n: custom_recognizer(tdefs[n], ignore_case, style=(sum(map(ord, n)) + len(text)) % 3) for n in custom} or None
     pg = pgx.grammar(text, recognizers=recs, ignore_case=ignore_case)
     kw = {}
     if passthrough:
